@@ -614,7 +614,9 @@ func (p *Program) callMods(fm *funcMods, cc *ssa.CallCommon, paramIdx map[*ssa.P
 	}
 	callee := cc.StaticCallee()
 	if callee == nil {
-		fm.ms.all = true
+		if !sx.isPureField(cc.Value) {
+			fm.ms.all = true
+		}
 		return
 	}
 	if !sx.W.inModule(pkgOf(callee)) || len(callee.Blocks) == 0 || opaquePkg(pkgOf(callee)) {
@@ -640,7 +642,21 @@ func (p *Program) callMods(fm *funcMods, cc *ssa.CallCommon, paramIdx map[*ssa.P
 				}
 				p.addRoot(fm.ms, ri, nil, map[string]bool{})
 			case *types.Signature:
-				if !deferredCallback[full] {
+				if deferredCallback[full] {
+					continue
+				}
+				var cb *ssa.Function
+				switch f := a.(type) {
+				case *ssa.MakeClosure:
+					cb, _ = f.Fn.(*ssa.Function)
+				case *ssa.Function:
+					cb = f
+				}
+				if cb != nil && sx.W.inModule(pkgOf(cb)) {
+					fm.callees = append(fm.callees, calleeUse{cb, nil})
+				} else if cb != nil && len(cb.FreeVars) == 0 {
+					// a function declared outside the module cannot touch module state
+				} else {
 					fm.ms.all = true
 				}
 			case *types.Interface:
